@@ -44,7 +44,7 @@ Definition escape_rune (r : Z) : list Z :=
     [92; 120] ++ (match s with [_] => [48] | _ => [] end) ++ s
   else
     let s := to_hex r in
-    if 65535 <? r then [92; 120; 123] ++ s ++ [125]
+    if 65535 <? r then [r]                       (* beyond the BMP: the rune itself *)
     else [92; 117] ++ repeat 48 (4 - length s) ++ s.
 
 Definition escape (s : list Z) : list Z := flat_map escape_rune s.
